@@ -124,6 +124,49 @@ theorem mi_textbook (yr ye : List Nat) (h : yr.length = ye.length) :
         pij * Real.log (pij / (((yr.count x : ℝ) / yr.length) * ((ye.count y : ℝ) / yr.length)))).sum).sum :=
   mutualInfoIdx_real_textbook h
 
+/-- **mi_nonneg.** Over the reals the double sum is non-negative (Gibbs), so the `np.clip(·, 0, None)` that
+    `_mutual_info_score` applies (it only removes rounding noise in binary64) never changes the value. -/
+theorem mi_nonneg (yr ye : List Nat) (h : yr.length = ye.length) :
+    0 ≤ mutualInfoIdx (α := ℝ) yr ye ∧ mutualInfoIdx (α := ℝ) yr ye = miSum yr ye :=
+  ⟨mutualInfoIdx_real_nonneg h, mutualInfoIdx_real h⟩
+
+/-- **empty_scalar.** On an empty reference or estimate `rand_index` and `ari` return the scalar `0.0`
+    (whenever they return at all, i.e. the other annotation validates). -/
+theorem rand_ari_empty_scalar (A : Annot) (fs : ℚ) (h : A.refIvs = [] ∨ A.estIvs = []) :
+    (∀ v, randIndex A fs = .ok v → v = .rat 0) ∧ (∀ v, ari A fs = .ok v → v = .rat 0) := by
+  have hp : ∀ r, prologue A fs = .ok r → r = none := by
+    intro r hr
+    unfold prologue at hr
+    cases hv : validateStructure A.refIvs A.refLabs.length A.estIvs A.estLabs.length with
+    | error e => rw [hv] at hr; cases hr
+    | ok u =>
+      rw [hv] at hr
+      have hc : (A.refIvs.isEmpty = true ∨ A.estIvs.isEmpty = true) := by
+        rcases h with h | h <;> simp [h]
+      simp only [hc, if_true] at hr
+      cases hr; rfl
+  constructor
+  · intro v hv
+    unfold randIndex at hv
+    cases hq : prologue A fs with
+    | error e => rw [hq] at hv; cases hv
+    | ok r =>
+      have := hp r hq
+      subst this
+      rw [hq] at hv
+      cases hv; rfl
+  · intro v hv
+    unfold ari at hv
+    cases hq : prologue A fs with
+    | error e => rw [hq] at hv; cases hv
+    | ok r =>
+      have := hp r hq
+      subst this
+      rw [hq] at hv
+      cases hv; rfl
+
+example : prologue ⟨[], [], [(0, 1)], [['a']]⟩ 1 = .ok none := by decide +kernel
+
 example : classes [0, 0, 1, 1] = [0, 1] ∧ classes [0, 1, 1, 1] = [0, 1] ∧
     contingency [0, 0, 1, 1] [0, 1, 1, 1] = [[1, 1], [0, 2]] := by decide +kernel
 
